@@ -16,12 +16,14 @@ type Pool[T any] struct {
 // Pool, and return it to the caller. At any stage it may fail and will instead
 // use the Pool.New function to create a new item and return that instead.
 func (p *Pool[T]) Get() T {
+	if x := p.pool.Get(); x != nil {
+		return x.(T)
+	}
 	if p.New == nil {
 		var x T
 		return x
 	}
-	p.pool.New = func() any { return p.New() }
-	return p.pool.Get().(T)
+	return p.New()
 }
 
 // Put adds x to the pool.
